@@ -12,6 +12,7 @@ import (
 	"sort"
 	"strings"
 	"testing"
+	"time"
 
 	"verifharness/kit"
 
@@ -29,6 +30,9 @@ type B struct {
 	// Back (stream form without window, not for the running transformations): the run arrives
 	// late - its time lies before the time of the group's previous run
 	Back bool `json:"back,omitempty"`
+	// Del (unit AggDelete, Case.Barrier): after this batch / run has been fed the feeder waits until
+	// the barrier node above the aggregation has deleted every group (edge.DeleteGroupMessage)
+	Del bool `json:"del,omitempty"`
 }
 
 func (b B) n() int {
@@ -57,6 +61,9 @@ type Case struct {
 	// Win (stream only): the points go through window().periodCount(Win[0]).everyCount(Win[1])
 	// first, so the aggregation sees (overlapping, for every < period) batches
 	Win *[2]int `json:"win,omitempty"`
+	// Barrier (unit AggDelete): |barrier().idle(150ms).delete(TRUE)|log().prefix('B') directly below
+	// the source; the groups are deleted where B.Del says so
+	Barrier bool `json:"barrier,omitempty"`
 }
 
 // batchEdges: the aggregation is fed batches (batch task, or stream task through a window).
@@ -70,6 +77,7 @@ type LB struct {
 	Run   []pv
 	TMax  int64
 	N     int // points in the batch before the field/where filter
+	Seg   int // number of group deletions (B.Del) before this batch
 }
 
 const rule = "rapid: aggregation function (count sum mean median mode min max first last spread stddev distinct percentile top bottom elapsed difference cumulativeSum movingAverage) x as()/usePointTimes/arguments x batches or equal-time runs of int/float values (duplicates, negatives, |v|>2^53, type changing between batches, empty batches); " +
@@ -94,9 +102,16 @@ func isTransform(fn string) bool {
 }
 func isBatchOut(fn string) bool { return fn == "distinct" || fn == "top" || fn == "bottom" }
 
-func gen(t *rapid.T) Case {
+func gen(t *rapid.T) Case { return genWith(t, false) }
+
+// genWith: del = the class of unit AggDelete (a deleting barrier above the aggregation, no window).
+func genWith(t *rapid.T, del bool) Case {
 	var c Case
+	c.Barrier = del
 	c.Stream = rapid.IntRange(0, 3).Draw(t, "stream") == 0
+	if del {
+		c.Stream = rapid.Bool().Draw(t, "stream-del")
+	}
 	all := append(append(append([]string{}, reducers...), batchOut...), transforms...)
 	c.Fn = rapid.SampledFrom(all).Draw(t, "fn")
 	if rapid.Bool().Draw(t, "hasas") {
@@ -118,7 +133,7 @@ func gen(t *rapid.T) Case {
 	c.GroupBy = rapid.Bool().Draw(t, "groupby")
 	c.Epoch = rapid.IntRange(0, 7).Draw(t, "epoch") == 0
 	c.Pre = rapid.SampledFrom([]string{"", "", "", "where-all", "where-half", "eval"}).Draw(t, "pre")
-	if c.Stream && rapid.Bool().Draw(t, "window") {
+	if c.Stream && !del && rapid.Bool().Draw(t, "window") {
 		c.Win = &[2]int{rapid.IntRange(1, 6).Draw(t, "periodCount"), rapid.IntRange(1, 6).Draw(t, "everyCount")}
 	}
 	groups := 1
@@ -132,6 +147,10 @@ func gen(t *rapid.T) Case {
 	groupFloat := map[int]bool{}
 	for g := 0; g < groups; g++ {
 		groupFloat[g] = rapid.Bool().Draw(t, "gfloat")
+	}
+	mustDel := -1
+	if del {
+		mustDel = rapid.IntRange(0, nb-1).Draw(t, "mustdel")
 	}
 	for i := 0; i < nb; i++ {
 		b := B{G: rapid.IntRange(0, groups-1).Draw(t, "g")}
@@ -159,6 +178,15 @@ func gen(t *rapid.T) Case {
 			}
 			b.Gaps = append(b.Gaps, rapid.SampledFrom([]int64{0, 1, 1e6, 1e6, 3e6, 7}).Draw(t, "gap"))
 		}
+		if del {
+			b.Del = i == mustDel || rapid.IntRange(0, 3).Draw(t, "del") == 0
+			if b.Del {
+				// a deleted group starts afresh: its stream transformation may meet another field type
+				for g := 0; g < groups; g++ {
+					groupFloat[g] = rapid.Bool().Draw(t, "gfloat-after-delete")
+				}
+			}
+		}
 		c.Bs = append(c.Bs, b)
 	}
 	return c
@@ -183,6 +211,9 @@ func (c Case) script() string {
 	}
 	if c.Win != nil {
 		fmt.Fprintf(&s, "|window().periodCount(%d).everyCount(%d)", c.Win[0], c.Win[1])
+	}
+	if c.Barrier {
+		fmt.Fprintf(&s, "|barrier().idle(%dms).delete(TRUE)|log().prefix('B')", barrierIdle/time.Millisecond)
 	}
 	switch c.Pre {
 	case "where-all":
@@ -243,7 +274,8 @@ type pv struct {
 // materialise builds the inputs: batches (batch form) or points (stream form) in feed order, and
 // the logical batches the aggregation works on (per input batch / equal-time run / window) with
 // the typed values of the points that carry the field and pass the where node.
-func (c Case) materialise() (pts []kit.Pt, bts []kit.Bt, lbs []LB) {
+// pauses (Case.Barrier): the numbers of fed messages (points / batches) after which every group is deleted.
+func (c Case) materialise() (pts []kit.Pt, bts []kit.Bt, lbs []LB, pauses []int) {
 	lastT := map[int]int64{}
 	type wp struct {
 		p    pv
@@ -255,7 +287,16 @@ func (c Case) materialise() (pts []kit.Pt, bts []kit.Bt, lbs []LB) {
 		t0 = 0
 	}
 	tw := t0
+	seg := 0
 	for k, b := range c.Bs {
+		if k > 0 && c.Barrier && c.Bs[k-1].Del {
+			seg++
+			if c.Stream {
+				pauses = append(pauses, len(pts))
+			} else {
+				pauses = append(pauses, len(bts))
+			}
+		}
 		host := fmt.Sprintf("h%d", b.G)
 		start := t0 + int64(k)*10*sec
 		if c.Stream && start <= lastT[b.G] {
@@ -346,11 +387,18 @@ func (c Case) materialise() (pts []kit.Pt, bts []kit.Bt, lbs []LB) {
 			if c.Stream && len(run) == 0 {
 				continue // stream form: no point with the field, no run
 			}
-			lb := LB{G: b.G, Float: b.Float, Run: run, TMax: bt.TMax, N: b.n()}
+			lb := LB{G: b.G, Float: b.Float, Run: run, TMax: bt.TMax, N: b.n(), Seg: seg}
 			if c.Stream {
 				lb.TMax = run[0].t
 			}
 			lbs = append(lbs, lb)
+		}
+	}
+	if n := len(c.Bs); c.Barrier && n > 0 && c.Bs[n-1].Del {
+		if c.Stream {
+			pauses = append(pauses, len(pts))
+		} else {
+			pauses = append(pauses, len(bts))
 		}
 	}
 	return
@@ -598,7 +646,7 @@ func (o out) accepts(v kit.FV, t int64) string {
 // ---------------------------------------------------------------- run
 
 func run(c Case, cc *kit.Case) {
-	pts, bts, lbs := c.materialise()
+	pts, bts, lbs, pauses := c.materialise()
 	script := c.script()
 	cc.Label("fn:" + c.Fn)
 	if c.Stream {
@@ -643,13 +691,34 @@ func run(c Case, cc *kit.Case) {
 	if c.Pre != "" {
 		cc.Label("pre:" + c.Pre)
 	}
+	if c.Barrier {
+		// a deletion that hits a group whose last batch / run produced a result, followed by more data of the group
+		after, again, end := map[int]bool{}, false, false
+		for k, b := range c.Bs {
+			if after[b.G] {
+				again = true
+			}
+			if b.Del {
+				for _, x := range c.Bs[:k+1] {
+					after[x.G] = true
+				}
+				end = k == len(c.Bs)-1
+			}
+		}
+		if again {
+			cc.Label("group-deleted-and-created-again")
+		}
+		if end {
+			cc.Label("groups-deleted-after-the-last-batch")
+		}
+	}
 	if typeChange {
 		cc.Label("type-change-between-batches")
 	}
 	if empty {
 		cc.Label("empty-batch")
 	}
-	if nt {
+	if nt && !c.Barrier {
 		cc.NonTrivial()
 	}
 
@@ -660,7 +729,20 @@ func run(c Case, cc *kit.Case) {
 	}
 	defer env.Close()
 	var defErr, runErr error
-	if c.Stream {
+	if c.Barrier {
+		var inconclusive string
+		inconclusive, defErr, runErr = feedWithDeletions(c, env, script, pts, bts, pauses)
+		if inconclusive != "" && defErr == nil && runErr == nil {
+			// the wall clock did not cooperate: the run says nothing
+			cc.Label("barrier-timing-inconclusive")
+			cc.Label("barrier-timing-inconclusive:" + strings.SplitN(inconclusive, ":", 2)[0])
+			return
+		}
+		cc.Label("groups-deleted-as-planned")
+		if nt {
+			cc.NonTrivial()
+		}
+	} else if c.Stream {
 		defErr, runErr = env.RunStream(script, pts)
 	} else {
 		defErr, runErr = env.RunBatch(script, [][]kit.Bt{bts})
@@ -699,6 +781,13 @@ func run(c Case, cc *kit.Case) {
 		perG[g] = append(perG[g], o)
 	}
 	ctx := func() string { return fmt.Sprintf("\nscript: %s", script) }
+	// fail reports a difference; while the matcher below only tries an alignment it records nothing
+	trial := false
+	fail := func(sig, format string, args ...any) {
+		if !trial {
+			cc.Fail(sig, format, args...)
+		}
+	}
 
 	// tagsFromInput: the tags of an emitted selector / top / bottom point are the group's tags, or the
 	// group's tags plus the own tags of an input point that carries the emitted value (and time,
@@ -728,11 +817,11 @@ func run(c Case, cc *kit.Case) {
 	checkPoint := func(p kit.Pt, g int, o out, selector bool, where string, in []pv) bool {
 		v, okv := p.Fields[as]
 		if !okv {
-			cc.Fail("agg/field-name", "%s: output has fields %v, no field %q%s", where, p.Fields, as, ctx())
+			fail("agg/field-name", "%s: output has fields %v, no field %q%s", where, p.Fields, as, ctx())
 			return false
 		}
 		if d := o.accepts(v, p.Time); d != "" {
-			cc.Fail("agg/value-or-time", "%s: %s%s", where, d, ctx())
+			fail("agg/value-or-time", "%s: %s%s", where, d, ctx())
 			return false
 		}
 		gt := groupTags(g)
@@ -740,21 +829,21 @@ func run(c Case, cc *kit.Case) {
 			// selectors may carry the selected point's own tags and fields; the group's tags must be there
 			for k, v := range gt {
 				if p.Tags[k] != v {
-					cc.Fail("agg/tags", "%s: tags %v lack the group's tags %v%s", where, p.Tags, gt, ctx())
+					fail("agg/tags", "%s: tags %v lack the group's tags %v%s", where, p.Tags, gt, ctx())
 					return false
 				}
 			}
 			if in != nil && !tagsFromInput(p.Tags, v, p.Time, gt, in) {
-				cc.Fail("agg/tags-of-another-point", "%s: tags %v are neither the group's tags %v nor those plus the own tags of an input point with value %v%s", where, p.Tags, gt, v, ctx())
+				fail("agg/tags-of-another-point", "%s: tags %v are neither the group's tags %v nor those plus the own tags of an input point with value %v%s", where, p.Tags, gt, v, ctx())
 				return false
 			}
 		} else {
 			if !(reflect.DeepEqual(p.Tags, gt) || len(p.Tags) == 0 && len(gt) == 0) {
-				cc.Fail("agg/tags", "%s: tags %v, want the group's tags %v%s", where, p.Tags, gt, ctx())
+				fail("agg/tags", "%s: tags %v, want the group's tags %v%s", where, p.Tags, gt, ctx())
 				return false
 			}
 			if len(p.Fields) != 1 {
-				cc.Fail("agg/fields", "%s: fields %v, want only %q%s", where, p.Fields, as, ctx())
+				fail("agg/fields", "%s: fields %v, want only %q%s", where, p.Fields, as, ctx())
 				return false
 			}
 		}
@@ -772,9 +861,26 @@ func run(c Case, cc *kit.Case) {
 		in    []pv
 	}
 	exp := map[string][]expItem{}
-	streamSeq := map[int][]pv{} // stream transformations: the group's whole sequence
+	streamSeq := map[int][]pv{} // stream transformations: the group's whole sequence (since it was last deleted)
 	maxAbs := map[int]float64{}
+	seg := 0
+	// endSegment: every group has been deleted (or the data ends)
+	endSegment := func() {
+		if !c.batchEdges() && !isTransform(c.Fn) {
+			// nothing marks the end of the last run of a group: it may be absent
+			for gid := range exp {
+				exp[gid][len(exp[gid])-1].last = true
+			}
+		}
+		// a group that is created again starts afresh
+		streamSeq = map[int][]pv{}
+		maxAbs = map[int]float64{}
+	}
 	for _, b := range lbs {
+		if b.Seg != seg {
+			seg = b.Seg
+			endSegment()
+		}
 		run := b.Run
 		local := 0.0
 		for _, p := range run {
@@ -839,63 +945,50 @@ func run(c Case, cc *kit.Case) {
 			}
 		}
 	}
-	if !c.batchEdges() && !isTransform(c.Fn) {
-		// nothing marks the end of the last run of a group: it may be absent
-		for gid := range exp {
-			exp[gid][len(exp[gid])-1].last = true
-		}
-	}
+	endSegment()
 
-	for gid, es := range exp {
-		os := perG[gid]
-		if len(os) != len(es) {
-			if !(len(es) > 0 && es[len(es)-1].last && len(os) == len(es)-1) {
-				cc.Fail("agg/output-count", "group %q: %d outputs, reference %d%s", gid, len(os), len(es), ctx())
-				return
-			}
-		}
-		for i, o := range os {
-			e := es[i]
-			where := fmt.Sprintf("group %q output %d", gid, i)
+	// compare reports through fail whether observation o is what the reference item e describes
+	compare := func(o kit.Obs, e expItem, gid, where string) bool {
+		{
 			if !e.isB {
 				if o.P == nil {
-					cc.Fail("agg/output-kind", "%s is a batch, want a point%s", where, ctx())
-					return
+					fail("agg/output-kind", "%s is a batch, want a point%s", where, ctx())
+					return false
 				}
 				if o.P.Name != "m" || o.P.Group != gid {
-					cc.Fail("agg/identity", "%s: name %q group %q, want m %q%s", where, o.P.Name, o.P.Group, gid, ctx())
-					return
+					fail("agg/identity", "%s: name %q group %q, want m %q%s", where, o.P.Name, o.P.Group, gid, ctx())
+					return false
 				}
 				if !checkPoint(*o.P, e.g, *e.point, selectors[c.Fn], where, e.in) {
-					return
+					return false
 				}
-				continue
+				return true
 			}
 			if o.B == nil {
-				cc.Fail("agg/output-kind", "%s is a point, want a batch%s", where, ctx())
-				return
+				fail("agg/output-kind", "%s is a point, want a batch%s", where, ctx())
+				return false
 			}
 			b := o.B
 			gt := groupTags(e.g)
 			if b.Name != "m" || !(reflect.DeepEqual(b.Tags, gt) || len(b.Tags) == 0 && len(gt) == 0) {
-				cc.Fail("agg/identity", "%s: batch name %q tags %v, want m %v%s", where, b.Name, b.Tags, gt, ctx())
-				return
+				fail("agg/identity", "%s: batch name %q tags %v, want m %v%s", where, b.Name, b.Tags, gt, ctx())
+				return false
 			}
 			if len(b.Points) != len(e.batch) {
-				cc.Fail("agg/batch-size", "%s: %d points, reference %d%s", where, len(b.Points), len(e.batch), ctx())
-				return
+				fail("agg/batch-size", "%s: %d points, reference %d%s", where, len(b.Points), len(e.batch), ctx())
+				return false
 			}
 			if isTransform(c.Fn) {
 				if b.TMax != e.tmax {
-					cc.Fail("agg/batch-time", "%s: batch time %d, reference %d%s", where, b.TMax, e.tmax, ctx())
-					return
+					fail("agg/batch-time", "%s: batch time %d, reference %d%s", where, b.TMax, e.tmax, ctx())
+					return false
 				}
 				for j, p := range b.Points {
 					if !checkPoint(p, e.g, e.batch[j], false, fmt.Sprintf("%s point %d", where, j), nil) {
-						return
+						return false
 					}
 				}
-				continue
+				return true
 			}
 			// distinct / top / bottom: compare values as multisets; times: the batch time, or with
 			// usePointTimes the time of an input point that carries that value
@@ -903,8 +996,8 @@ func run(c Case, cc *kit.Case) {
 			for _, p := range b.Points {
 				v, ok := p.Fields[as]
 				if !ok || len(p.Fields) != 1 {
-					cc.Fail("agg/field-name", "%s: point fields %v, want only %q%s", where, p.Fields, as, ctx())
-					return
+					fail("agg/field-name", "%s: point fields %v, want only %q%s", where, p.Fields, as, ctx())
+					return false
 				}
 				got = append(got, v.String())
 				okT := false
@@ -916,18 +1009,18 @@ func run(c Case, cc *kit.Case) {
 					okT = p.Time == e.tmax
 				}
 				if !okT {
-					cc.Fail("agg/value-or-time", "%s: point %v has time %d (batch time %d, usePointTimes=%v)%s", where, v, p.Time, e.tmax, c.UsePT, ctx())
-					return
+					fail("agg/value-or-time", "%s: point %v has time %d (batch time %d, usePointTimes=%v)%s", where, v, p.Time, e.tmax, c.UsePT, ctx())
+					return false
 				}
 				for k, v := range gt {
 					if p.Tags[k] != v {
-						cc.Fail("agg/tags", "%s: point tags %v lack the group's tags%s", where, p.Tags, ctx())
-						return
+						fail("agg/tags", "%s: point tags %v lack the group's tags%s", where, p.Tags, ctx())
+						return false
 					}
 				}
 				if c.Fn != "distinct" && !tagsFromInput(p.Tags, v, p.Time, gt, e.in) {
-					cc.Fail("agg/tags-of-another-point", "%s: point %v carries tags %v: neither the group's tags %v nor those plus the own tags of an input point with that value%s", where, v, p.Tags, gt, ctx())
-					return
+					fail("agg/tags-of-another-point", "%s: point %v carries tags %v: neither the group's tags %v nor those plus the own tags of an input point with that value%s", where, v, p.Tags, gt, ctx())
+					return false
 				}
 			}
 			for _, w := range e.batch {
@@ -936,14 +1029,75 @@ func run(c Case, cc *kit.Case) {
 			sort.Strings(got)
 			sort.Strings(want)
 			if !reflect.DeepEqual(got, want) {
-				cc.Fail("agg/value-or-time", "%s: values %v, reference %v%s", where, got, want, ctx())
-				return
+				fail("agg/value-or-time", "%s: values %v, reference %v%s", where, got, want, ctx())
+				return false
 			}
 		}
+		return true
+	}
+
+	// The outputs of a group are matched in order against the reference items; an item marked last (the
+	// open run of a group when the group is deleted or the data ends) may be absent. matches tries the
+	// alignments without reporting; when there is none the first difference of the in-order
+	// alignment (an optional item that does not fit is taken as absent) is reported.
+	for gid, es := range exp {
+		os := perG[gid]
+		var matches func(i, j int) bool
+		matches = func(i, j int) bool {
+			if i == len(os) {
+				for _, e := range es[j:] {
+					if !e.last {
+						return false
+					}
+				}
+				return true
+			}
+			if j == len(es) {
+				return false
+			}
+			if compare(os[i], es[j], gid, "") && matches(i+1, j+1) {
+				return true
+			}
+			return es[j].last && matches(i, j+1)
+		}
+		trial = true
+		ok := matches(0, 0)
+		trial = false
+		if ok {
+			continue
+		}
+		optional := 0
+		for _, e := range es {
+			if e.last {
+				optional++
+			}
+		}
+		if len(os) > len(es) || len(os) < len(es)-optional {
+			fail("agg/output-count", "group %q: %d outputs, reference %d (of which %d may be absent)%s", gid, len(os), len(es), optional, ctx())
+			return
+		}
+		i, j := 0, 0
+		for i < len(os) && j < len(es) {
+			trial = true
+			fits := compare(os[i], es[j], gid, "")
+			trial = false
+			if !fits && es[j].last {
+				j++
+				continue
+			}
+			if !fits {
+				compare(os[i], es[j], gid, fmt.Sprintf("group %q output %d", gid, i))
+				return
+			}
+			i++
+			j++
+		}
+		fail("agg/output-count", "group %q: %d outputs do not align with the %d reference items (%d may be absent)%s", gid, len(os), len(es), optional, ctx())
+		return
 	}
 	for gid, os := range perG {
 		if len(exp[gid]) == 0 && len(os) > 0 {
-			cc.Fail("agg/output-count", "group %q: %d outputs, reference none%s", gid, len(os), ctx())
+			fail("agg/output-count", "group %q: %d outputs, reference none%s", gid, len(os), ctx())
 			return
 		}
 	}
